@@ -7,6 +7,7 @@ CONSTANTS
     Req <- ReqOne
     Style <- StyleT1
     Privileged = TRUE
+    Mixed = FALSE
     KnownDev = {}
     MaxCrashes = 2
 INVARIANT C15_NoProtectedMismatch
